@@ -137,6 +137,27 @@ def check_flags(mk, tag, tn2):
                 iso_goal(mk, f"{tag}: tensor {sorted(t.tags)} flagged isometric over {li}", t, li)
 
 
+def eq_clear(mk, label, lhs, rhs):
+    """equality goal, each entry multiplied by the monomial of invertible (non-zero) symbols that
+    clears its negative powers: an equivalent goal whose certificate is of lower degree (a norm
+    r = sqrt(p) enters as r**-2; the defining relation is r**2 = p)"""
+    if not mk.sym:
+        return mk.eq(label, lhs, rhs)
+    A, B = [], []
+    for x, y in zip(P.flat_polys(lhs), P.flat_polys(rhs)):
+        mins = {}
+        for m in (x - y).t:
+            for s_, e_ in m:
+                if s_ in P.TAB.invertible and e_ < 0:
+                    mins[s_] = min(mins.get(s_, 0), e_)
+        if mins:
+            mono = P.Poly({tuple(sorted((s_, -e_) for s_, e_ in mins.items())): 1})
+            x, y = x * mono, y * mono
+        A.append(x)
+        B.append(y)
+    mk.eq(label, A, B)
+
+
 def norm2(t):
     tot = 0
     for v, cv in zip(np.asarray(t.data).reshape(-1), conj(t.data).reshape(-1)):
@@ -800,10 +821,10 @@ def full_simplify(mk, geom, seq):
             n2 = [norm2(t) for t in t2]
             if eqn is True:
                 for k in range(1, len(n2)):
-                    mk.eq(f"{tag}: tensor {k} has the same squared norm as tensor 0", n2[k], n2[0])
+                    eq_clear(mk, f"{tag}: tensor {k} has the same squared norm as tensor 0", n2[k], n2[0])
             elif eqn is not False:
                 for k in range(len(n2)):
-                    mk.eq(f"{tag}: tensor {k} squared norm == value**2", n2[k], eqn * eqn)
+                    eq_clear(mk, f"{tag}: tensor {k} squared norm == value**2", n2[k], eqn * eqn)
     t3 = tn.copy()
     r = t3.full_simplify_(seq, output_inds=out, atol=0.0)
     mk.same("full_simplify_ returns the network itself", r is t3, True)
